@@ -26,13 +26,12 @@ Lemma string_ind3 (P : string -> Prop) :
   (forall a b c r, P r -> P (String a (String b (String c r)))) ->
   forall s, P s.
 Proof.
-  intros H0 H1 H2 H3.
-  assert (forall n s, String.length s <= n -> P s) as H.
-  { induction n as [|n IH]; intros s L.
-    - destruct s; [auto | cbn in L; lia].
-    - destruct s as [|a [|b [|c r]]]; auto.
-      apply H3. apply IH. cbn in L. lia. }
-  intros s. apply (H (String.length s)). auto.
+  intros H0 H1 H2 H3. fix IH 1.
+  intros [|a [|b [|c r]]].
+  - exact H0.
+  - apply H1.
+  - apply H2.
+  - apply H3. apply IH.
 Qed.
 
 (* ---------- base64 ---------- *)
